@@ -367,6 +367,47 @@ func (g *FnGen) doCall(ci ssa.CallInstruction, v ssa.Value) {
 	for _, a := range reachPublished {
 		g.assumeTypeInvAt(and(guard, a.guard), a.v, g.st, "typeinv-after-publish")
 	}
+	// Parameters whose type carries an invariant: a callee that may write that type's invariant
+	// fields re-establishes the invariant of every object it writes before it returns (that is
+	// its own obligation), so the invariant of the pre-existing objects this function received
+	// holds again after the call -- unless this function itself has written them and not yet
+	// repaired them (those are the dirty objects, handled above).
+	if g.parent == nil {
+		mods := g.E.callMods(ci, true)
+		r := g.root()
+		for _, p := range g.fn.Params {
+			pv := g.vals[p]
+			tn := typeInvName(pv.Go)
+			if tn == "" || len(g.S.TypeInvs[tn]) == 0 {
+				continue
+			}
+			t := lookupNamedType(g.P, tn)
+			if t == nil {
+				continue
+			}
+			touched := false
+			prefix := "F:" + tn + "."
+			for k := range mods {
+				if strings.HasPrefix(k, prefix) || k == "*" {
+					touched = true
+				}
+			}
+			for _, k := range g.typeInvMapKeys(tn, t) {
+				if mods[k] {
+					touched = true
+				}
+			}
+			isDirty := false
+			for _, d := range r.dirty[tn] {
+				if d.v.T == pv.T {
+					isDirty = true
+				}
+			}
+			if touched && !isDirty {
+				g.assumeTypeInvAt(and(guard, not("(= "+pv.T+" nil)")), pv, g.st, "typeinv-after-call")
+			}
+		}
+	}
 	if ct != nil {
 		eg := guard
 		if len(ct.Domain) > 0 {
